@@ -15,8 +15,8 @@
        (in particular every Point) is an end of every piece it lies on;
    T3  the ghost spanning tree has n-1 edges on the n distinct component points and connects them, for
        every enumeration order of PrioritySearch that offers every record;
-   T4  PARTIAL: which control points are certainly interaction points (order-independent), and what the
-       chains of forEachNonInteractingSegment are; the global statement is in a comment at the end. *)
+   T4  here PARTIAL: which control points are certainly interaction points (order-independent), and what the
+       chains of forEachNonInteractingSegment are; the global statement is proved in Props/C01_pipeline.v. *)
 From Coq Require Import QArith List Bool ZArith Sorted Relations.
 From SF Require Import Base.GeomAST Base.QKernel Base.Planar Model.OverlayRenode
   Proofs.OverlayRenode_proofs Proofs.OverlayRenode_tree_proofs Proofs.OverlayRenode_ip_proofs.
@@ -142,7 +142,8 @@ Proof. exact create_ghosts_count_lemma. Qed.
 Print Assumptions create_ghosts_count.
 
 (* ================================================================ T4 (partial) *)
-(* FULL STATEMENT (not proved): let r be the re-noded input, I its interaction points and cs the chains
+(* THE FULL STATEMENT IS NOW PROVED in Props/C01_pipeline.v (chains_meet_only_at_ends, chains_same_key_same_sequence;
+   the induction described below is Proofs/OverlayPipeline_proofs.v: walk_fwd / share_piece).  It reads: let r be the re-noded input, I its interaction points and cs the chains
    of all elements; for any two chains c1 c2 of cs and any point x lying on a piece of c1 and on a piece
    of c2: x is (equal to) the first or last point of c1 and of c2 - or c1 and c2 are the same point
    sequence up to reversal (then addOrGetEdge maps them to the same pair of half edges).
